@@ -227,6 +227,10 @@ def gen_shape(tier):
                     yield {"k": "shape", "fmt": fmt, "sheet": sheet, "what": "rows", "pos": pos, "n": n}
                 for n in (1, 19, 20, 21):
                     yield {"k": "shape", "fmt": fmt, "sheet": sheet, "what": "cols", "pos": pos, "n": n}
+            # blank rows in the survey and the choices sheet of one workbook
+            if sheet == "survey":
+                for n in (1, 2):
+                    yield {"k": "shape", "fmt": fmt, "sheet": sheet, "what": "rows-both", "pos": "middle", "n": n}
             # several separate runs, each within the limit, together beyond it: every run is judged on its own
             for ns in ([30, 31], [35, 35], [59, 60], [60, 60], [1, 60], [25, 25, 25], [60, 60, 60]):
                 yield {"k": "shape", "fmt": fmt, "sheet": sheet, "what": "rows-multi", "pos": "multi", "n": ns}
@@ -411,7 +415,13 @@ def check_one(case):
         s, n, what = case["sheet"], case["n"], case["what"]
         t = tabs[s]
         nrows = len(t) - 1
-        if what == "rows-multi":
+        if what == "rows-both":
+            for s_ in ("survey", "choices"):
+                t_ = tabs[s_]
+                at = 1 + (len(t_) - 1) // 2
+                t_[at:at] = [[None] * len(t_[0]) for _ in range(n)]
+                ref[s_][at - 1:at - 1] = [{} for _ in range(n)]
+        elif what == "rows-multi":
             width = len(t[0])
             ats = [1, nrows, 1 + nrows // 2][:len(n)]
             for at, k_ in sorted(zip(ats, n), reverse=True):
